@@ -30,27 +30,27 @@ type LoopContract struct {
 }
 
 type FuncContract struct {
-	Key        string // e.g. engine.(*RuleMatcherKey).match
-	Pkg        string // package name the contract was written in
-	Ints       string // "", "bv64", "math"
-	Strs       string // "", "theory", "opaque"
-	Requires   []Clause
-	Ensures    []Clause
-	Loops      map[int]*LoopContract
-	Assigns    []string // nil = unspecified (*); ["nothing"]; list of heap array patterns
-	HasAssigns bool
-	Props      []string
-	Core       bool
-	Trusted    bool // extern / trusted: body not checked
+	Key          string // e.g. engine.(*RuleMatcherKey).match
+	Pkg          string // package name the contract was written in
+	Ints         string // "", "bv64", "math"
+	Strs         string // "", "theory", "opaque"
+	Requires     []Clause
+	Ensures      []Clause
+	Loops        map[int]*LoopContract
+	Assigns      []string // nil = unspecified (*); ["nothing"]; list of heap array patterns
+	HasAssigns   bool
+	Props        []string
+	Core         bool
+	Trusted      bool // extern / trusted: body not checked
 	TrustedFrame bool // the assigns clause is assumed, not checked against the body (listed)
-	Pure       bool
-	Concurrent bool // concurrent_entry
-	Replay     string
-	Opts       map[string]string
-	Asserts    []SiteClause
-	File       string
-	Line       int
-	Used       bool
+	Pure         bool
+	Concurrent   bool // concurrent_entry
+	Replay       string
+	Opts         map[string]string
+	Asserts      []SiteClause
+	File         string
+	Line         int
+	Used         bool
 }
 
 type SiteClause struct {
@@ -74,6 +74,7 @@ type TypeDecl struct {
 	GuardedBy map[string]string // field -> lock field
 	Invs      []Clause
 	Immutable []string
+	Stable    []string // not changed by other threads once the object is shared (assumption; writes restricted)
 }
 
 type Axiom struct {
@@ -253,6 +254,10 @@ func (cs *Contracts) LoadFile(path string) {
 			case "immutable":
 				for _, f := range strings.Split(parts[2], ",") {
 					td.Immutable = append(td.Immutable, strings.TrimSpace(f))
+				}
+			case "stable":
+				for _, f := range strings.Split(parts[2], ",") {
+					td.Stable = append(td.Stable, strings.TrimSpace(f))
 				}
 			case "guarded_by":
 				lf := strings.SplitN(parts[2], ":", 2)
